@@ -732,7 +732,8 @@ class FileAudit:
                 if dname in CACHE_DECORATORS:
                     self.emit(qual, '@' + text_of(deco),
                               'CBinding ScModule VMutable', live)
-                elif dname not in HARMLESS_DECORATORS:
+                elif dname not in HARMLESS_DECORATORS \
+                        and dname not in getattr(self, 'registrars', set()):
                     # the name is bound to whatever the decorator returns: an
                     # object the translator knows nothing about (a memoising
                     # closure, for instance)
@@ -1036,6 +1037,9 @@ class FileAudit:
                     and stmt.value is not None \
                     and self.set_kind(info, stmt.value) is not None:
                 self.emit(func, text_of(stmt), 'CSetEscape', live)
+            if rclass == 'RGlobal' and id(info.node) in getattr(
+                    self, 'import_nodes', set()):
+                rclass = 'RModuleInit'      # inside a registrar decorator
             if rclass in ('RLocal', 'RSelf', 'RModuleInit'):
                 self.count('store:' + rclass)
                 return
@@ -1059,6 +1063,13 @@ class FileAudit:
         var = stmt.target.id
         iter_names = {n.id for n in ast.walk(stmt.iter)
                       if isinstance(n, ast.Name)}
+        # `del d[x]` may name a dictionary that the iterable was COMPUTED from
+        # (a set operator / a call building a new set: evaluated once, before
+        # the loop); a bare name / attribute / view of it may not
+        computed = isinstance(stmt.iter, (ast.BinOp, ast.SetComp)) or (
+            isinstance(stmt.iter, ast.Call)
+            and isinstance(stmt.iter.func, ast.Name))
+        del_names = set() if computed else iter_names
 
         def is_var(node):
             return isinstance(node, ast.Name) and node.id == var
@@ -1068,7 +1079,7 @@ class FileAudit:
                 for tgt in sub.targets:
                     if not (isinstance(tgt, ast.Subscript)
                             and isinstance(tgt.value, ast.Name)
-                            and tgt.value.id not in iter_names
+                            and tgt.value.id not in del_names
                             and tgt.value.id != var and is_var(tgt.slice)):
                         return False
                 continue
@@ -1429,7 +1440,13 @@ class FileAudit:
                 self.emit(func, text_of(node), 'CStore RModule', live)
         # --- nondeterminism / dynamic features ---
         if name in DYNAMIC_CALLS:
-            self.emit(func, text_of(node), 'CDynamic', live)
+            if name == 'setattr' and recv is None and node.args \
+                    and isinstance(node.args[0], ast.Name) \
+                    and info.self_name is not None \
+                    and node.args[0].id == info.self_name:
+                self.count('store:RSelf')       # setattr(self, name, value)
+            else:
+                self.emit(func, text_of(node), 'CDynamic', live)
         if name in NONDET_CALLS:
             flag = False
             if recv is None:
@@ -1471,6 +1488,9 @@ class FileAudit:
                 self.emit(func, 'set.pop ' + text_of(node),
                           f'CSetLoop {self.set_kind(info, recv)} SinkOrdered',
                           live)
+            if rclass == 'RGlobal' and id(info.node) in getattr(
+                    self, 'import_nodes', set()):
+                rclass = 'RModuleInit'
             if rclass in ('RGlobal', 'RClass', 'RModule'):
                 self.emit(func, text_of(node, 100) + ' (call)',
                           f'CStore {rclass}', live)
@@ -1625,9 +1645,14 @@ def _imm(node):
 def table_kind(node):
     ''''dict' / 'seq' / 'set' / 'trans' when `node` is a literal table of
     immutable entries, else None.'''
-    if isinstance(node, (ast.Dict, ast.List, ast.Set)) \
-            and not (node.keys if isinstance(node, ast.Dict) else node.elts):
+    if isinstance(node, ast.Dict) and not node.keys:
+        return 'dict-init'  # an empty dict: eligible only when filled by
+                            # module-level statements alone (frozen_tables)
+    if isinstance(node, (ast.List, ast.Set)) and not node.elts:
         return None         # an empty literal is there to be filled
+    if isinstance(node, ast.Tuple):
+        return 'seq' if node.elts and all(_imm(e) for e in node.elts) \
+            else None
     if isinstance(node, ast.Dict):
         for key, val in zip(node.keys, node.values):
             if key is None:
@@ -1663,17 +1688,130 @@ def table_kind(node):
     return None
 
 
-def frozen_tables(trees):
-    '''Names bound ONCE, at module or class level, to a literal table of
-    immutable entries, such that EVERY other occurrence of the name in the
-    package (as a bare name or as an attribute `x.NAME`) is a read: subscript
-    load, `in`, len/sorted/list/..., .get/.items/.keys/.values/..., the
-    iterable of a loop, */** unpacking, the argument of .translate().  A table
-    that is passed to any other callee, aliased, returned, stored, deleted,
-    rebound, declared global, or (for a set) iterated is NOT in the result and
-    keeps its VMutable / VUnknown class.  Name-based across the package, hence
-    conservative: any other use of the same identifier anywhere disqualifies.'''
-    cands = {}      # name -> kind ; None once disqualified
+def _parents(tree):
+    parent = {}
+    for node in ast.walk(tree):
+        for child in ast.iter_child_nodes(node):
+            parent[child] = node
+    return parent
+
+
+def _enclosing_functions(node, parent):
+    out = []
+    while node in parent:
+        node = parent[node]
+        if isinstance(node, (ast.FunctionDef, ast.AsyncFunctionDef,
+                             ast.Lambda)):
+            out.append(node)
+    return out          # innermost first
+
+
+def _closure_stateless(func):
+    """No store / mutating call / nonlocal on a name that is not bound inside
+    `func` itself: the closure cannot keep state between its calls."""
+    bound = {a.arg for a in func.args.posonlyargs + func.args.args
+             + func.args.kwonlyargs}
+    if func.args.vararg:
+        bound.add(func.args.vararg.arg)
+    if func.args.kwarg:
+        bound.add(func.args.kwarg.arg)
+    body = func.body if isinstance(func.body, list) else [func.body]
+    nodes = [n for stmt in body for n in ast.walk(stmt)]
+    for n in nodes:
+        if isinstance(n, ast.Name) and isinstance(n.ctx, ast.Store):
+            bound.add(n.id)
+    for n in nodes:
+        if isinstance(n, (ast.Nonlocal, ast.Global)):
+            return False
+        target = None
+        if isinstance(n, (ast.Subscript, ast.Attribute)) \
+                and isinstance(n.ctx, (ast.Store, ast.Del)):
+            target = n
+        elif isinstance(n, ast.Call) and isinstance(n.func, ast.Attribute) \
+                and n.func.attr in MUTATORS:
+            target = n.func.value
+        if target is not None:
+            root, crossed = root_of(target)
+            if crossed or not isinstance(root, ast.Name) \
+                    or root.id not in bound:
+                return False
+    return True
+
+
+def registrars(trees):
+    """Module-level functions that are used ONLY as decorators (``@f`` or
+    ``@f(...)`` on definitions), i.e. that run at import time only, and whose
+    run-time closures are stateless.  Returns {name: ids of the function nodes
+    that execute at import time (f itself and, for the call form, the nested
+    decorator it returns)}."""
+    defs = {}
+    for tree in trees:
+        for stmt in tree.body:
+            if isinstance(stmt, ast.FunctionDef):
+                defs.setdefault(stmt.name, []).append(stmt)
+    uses = {name: [] for name in defs}
+    for tree in trees:
+        parent = _parents(tree)
+        for node in ast.walk(tree):
+            if isinstance(node, ast.Name) and node.id in uses:
+                par = parent.get(node)
+                form = None
+                if isinstance(par, (ast.FunctionDef, ast.AsyncFunctionDef,
+                                    ast.ClassDef)) \
+                        and node in par.decorator_list:
+                    form = 'bare'
+                elif isinstance(par, ast.Call) and par.func is node:
+                    gp = parent.get(par)
+                    if isinstance(gp, (ast.FunctionDef, ast.AsyncFunctionDef,
+                                       ast.ClassDef)) \
+                            and par in gp.decorator_list:
+                        form = 'call'
+                uses[node.id].append(form)
+            elif isinstance(node, ast.Attribute) and node.attr in uses:
+                uses[node.attr].append(None)    # reached some other way
+    out = {}
+    for name, nodes in defs.items():
+        forms = uses[name]
+        if len(nodes) != 1 or not forms or any(f is None for f in forms) \
+                or len(set(forms)) != 1:
+            continue
+        func = nodes[0]
+        import_time = [func]
+        nested = [n for n in ast.walk(func)
+                  if isinstance(n, (ast.FunctionDef, ast.AsyncFunctionDef,
+                                    ast.Lambda)) and n is not func]
+        if forms[0] == 'call':
+            returned = [st.value.id for st in ast.walk(func)
+                        if isinstance(st, ast.Return)
+                        and isinstance(st.value, ast.Name)]
+            direct = [n for n in func.body
+                      if isinstance(n, ast.FunctionDef)
+                      and n.name in returned]
+            if len(direct) != 1:
+                continue
+            import_time.append(direct[0])
+        runtime = [n for n in nested if n not in import_time]
+        if all(_closure_stateless(n) for n in runtime):
+            out[name] = {id(n) for n in import_time}
+    return out
+
+
+def frozen_tables(trees, regs=None):
+    """Names bound, at module or class level, to a literal table of immutable
+    entries (or to an empty dict), such that EVERY other occurrence of the name
+    in the package (as a bare name or as an attribute `x.NAME`) is a read:
+    subscript load, `in`, len/sorted/list/..., .get/.items/.keys/.values/...,
+    the iterable of a loop, */** unpacking, the argument of .translate() — or
+    an IMPORT-TIME fill: `T[k] = v` / `T.update(...)` at module level or inside
+    a registrar (a function used only as a decorator).  A table that is passed
+    to any other callee, aliased, returned, stored into at run time, deleted,
+    rebound, declared global, or (for a set) iterated is NOT in the result.
+    Name-based across the package, hence conservative."""
+    regs = regs or {}
+    import_nodes = set()
+    for ids in regs.values():
+        import_nodes |= ids
+    cands = {}      # name -> set of kinds ; None once disqualified
     for tree in trees:
         scopes = [tree] + [n for n in ast.walk(tree)
                            if isinstance(n, ast.ClassDef)]
@@ -1683,15 +1821,55 @@ def frozen_tables(trees):
                         and isinstance(stmt.targets[0], ast.Name):
                     kind = table_kind(stmt.value)
                     name = stmt.targets[0].id
-                    if kind is not None:
-                        cands[name] = kind if name not in cands else None
+                    if kind is not None and cands.get(name, set()) is not None:
+                        cands.setdefault(name, set()).add(kind)
     if not cands:
         return set()
+
+    def use_ok(kind, node, par, parent):
+        dictish = kind in ('dict', 'dict-init')
+        if isinstance(par, ast.Attribute) and par.value is node:
+            gp = parent.get(par)
+            called = isinstance(gp, ast.Call) and gp.func is par
+            if par.attr in READ_METHODS and called:
+                return kind != 'set'
+            if par.attr in ('update', 'setdefault') and called and dictish:
+                return import_time(gp, parent)
+            return False
+        if isinstance(par, ast.Subscript) and par.value is node:
+            if isinstance(par.ctx, ast.Load):
+                return dictish or kind == 'seq'
+            if isinstance(par.ctx, ast.Store) and dictish:
+                return import_time(par, parent)
+            return False
+        if isinstance(par, ast.Compare) and node in par.comparators \
+                and all(isinstance(o, (ast.In, ast.NotIn)) for o in par.ops):
+            return True
+        if isinstance(par, ast.Call) and node in par.args:
+            if isinstance(par.func, ast.Name) and par.func.id in READ_CALLS:
+                return kind != 'set' or par.func.id in (
+                    'len', 'sorted', 'bool', 'frozenset', 'set')
+            if isinstance(par.func, ast.Attribute) \
+                    and par.func.attr == 'translate' and kind == 'trans':
+                return True
+            return False
+        if isinstance(par, (ast.For, ast.comprehension)) and par.iter is node:
+            return dictish or kind == 'seq'
+        if isinstance(par, ast.Starred):
+            return kind == 'seq'
+        if isinstance(par, ast.Dict) and node in par.values \
+                and par.keys[par.values.index(node)] is None:
+            return dictish
+        if isinstance(par, ast.keyword) and par.arg is None:
+            return dictish
+        return False
+
+    def import_time(node, parent):
+        funcs = _enclosing_functions(node, parent)
+        return all(id(f) in import_nodes for f in funcs)
+
     for tree in trees:
-        parent = {}
-        for node in ast.walk(tree):
-            for child in ast.iter_child_nodes(node):
-                parent[child] = node
+        parent = _parents(tree)
         for node in ast.walk(tree):
             if isinstance(node, (ast.Global, ast.Nonlocal)):
                 for name in node.names:
@@ -1699,7 +1877,7 @@ def frozen_tables(trees):
                         cands[name] = None
                 continue
             if isinstance(node, ast.arg) and node.arg in cands:
-                cands[node.arg] = None      # a parameter of the same name
+                cands[node.arg] = None
                 continue
             if isinstance(node, ast.Name):
                 name = node.id
@@ -1709,10 +1887,8 @@ def frozen_tables(trees):
                 continue
             if cands.get(name) is None:
                 continue
-            kind = cands[name]
             par = parent.get(node)
             if isinstance(node.ctx, (ast.Store, ast.Del)):
-                # the defining assignment itself (module / class level)
                 gp = parent.get(par)
                 if isinstance(node, ast.Name) and isinstance(par, ast.Assign) \
                         and isinstance(gp, (ast.Module, ast.ClassDef)) \
@@ -1720,45 +1896,10 @@ def frozen_tables(trees):
                     continue
                 cands[name] = None
                 continue
-            ok = False
-            if isinstance(par, ast.Attribute) and par.value is node:
-                # x.NAME where NAME is the table: `node` is the inner value of
-                # an attribute access on something else — not a use of a table
-                # called `name`... unless node itself is the table reference
-                gp = parent.get(par)
-                ok = par.attr in READ_METHODS and isinstance(gp, ast.Call) \
-                    and gp.func is par and kind != 'set'
-                if kind == 'set':
-                    ok = False
-            elif isinstance(par, ast.Subscript) and par.value is node \
-                    and isinstance(par.ctx, ast.Load):
-                ok = kind in ('dict', 'seq')
-            elif isinstance(par, ast.Compare) and node in par.comparators \
-                    and all(isinstance(o, (ast.In, ast.NotIn))
-                            for o in par.ops):
-                ok = True
-            elif isinstance(par, ast.Call) and node in par.args:
-                if isinstance(par.func, ast.Name) \
-                        and par.func.id in READ_CALLS:
-                    ok = kind != 'set' or par.func.id in ('len', 'sorted',
-                                                          'bool', 'frozenset',
-                                                          'set')
-                elif isinstance(par.func, ast.Attribute) \
-                        and par.func.attr == 'translate' and kind == 'trans':
-                    ok = True
-            elif isinstance(par, (ast.For, ast.comprehension)) \
-                    and par.iter is node:
-                ok = kind in ('dict', 'seq')
-            elif isinstance(par, ast.Starred):
-                ok = kind == 'seq'
-            elif isinstance(par, ast.Dict) and node in par.values \
-                    and par.keys[par.values.index(node)] is None:
-                ok = kind == 'dict'
-            elif isinstance(par, ast.keyword) and par.arg is None:
-                ok = kind == 'dict'         # f(**TABLE): a copy is passed
-            if not ok:
+            if not all(use_ok(kind, node, par, parent)
+                       for kind in cands[name]):
                 cands[name] = None
-    return {name for name, kind in cands.items() if kind is not None}
+    return {name for name, kinds in cands.items() if kinds}
 
 
 def source_files(repo):
@@ -1809,12 +1950,18 @@ def audit(repo):
     summary = Summary()
     for tree in trees.values():
         collect_func_params(tree, summary.func_params)
-    frozen = frozen_tables(list(trees.values()))
+    regs = registrars(list(trees.values()))
+    frozen = frozen_tables(list(trees.values()), regs)
     audits = [FileAudit(repo, path, tree,
                         module_name(repo, path) in live, summary)
               for path, tree in trees.items()]
+    import_nodes = set()
+    for ids in regs.values():
+        import_nodes |= ids
     for fa in audits:
         fa.frozen = frozen
+        fa.registrars = set(regs)
+        fa.import_nodes = import_nodes
     # fixpoint of the name-based summaries
     for _ in range(8):
         summary.changed = False
